@@ -85,7 +85,10 @@ def gen_app_label(rng):
     cfg['db_table'] = False
     g = gen.Gen(rng, cfg)
     # va first so that vb can point at va; plus relations inside va
-    st = g.gen_state(['va', 'vb'])
+    # half of the projects have a bystander app whose label merely starts
+    # with the renamed label ('vax' vs 'va'); references to it must stay
+    third = rng.random() < 0.5
+    st = g.gen_state(['va', 'vax', 'vb'] if third else ['va', 'vb'])
     # make sure vb points at va
     va_models = st['apps']['va']['models']
     target = 'va.%s' % va_models[0]['name']
@@ -94,6 +97,11 @@ def gen_app_label(rng):
                st['apps']['vb']['models'] for f in mm['fields']):
         m['fields'].append({'name': 'xref', 'kind': 'ForeignKey',
                             'attrs': {'null': True}, 'to': target})
+    if third and not any(f.get('to', '').startswith('vax.') for mm in
+                         st['apps']['vb']['models'] for f in mm['fields']):
+        m['fields'].append({'name': 'yref', 'kind': 'ForeignKey',
+                            'attrs': {'null': True}, 'to': 'vax.%s' % (
+                                st['apps']['vax']['models'][0]['name'],)})
     rows = g.gen_rows(st)
     mut = {'op': 'RenameAppLabel', 'old': 'va', 'new': 'newa',
            'legacy': 'va'}
@@ -109,6 +117,10 @@ def gen_app_label(rng):
         'order': rng.choice([['va', 'vb'], ['vb', 'va']]),
         'databases': ['default'],
     }
+    if third:
+        project['apps']['vax'] = {'v0': st['apps']['vax']['models'],
+                                  'steps': [{'evos': []}]}
+        project['order'].insert(rng.randrange(0, 3), 'vax')
     return {'kind': 'app_label', 'project': project, 'rows': rows}
 
 
